@@ -1,5 +1,5 @@
 /-
-  Proofs/CommuteAroundSuccess.lean — helper lemmas for `commute_succeeds_around_partial` (Props/C17.lean):
+  Proofs/CommuteAroundSuccess.lean — helper lemmas for `commute_succeeds_around` (Props/C17.lean):
   a replace-around step is "cut the gap, put it into the slice, replace"; when another replace step
   works on a separate part, the gap is found again at the shifted positions as the same closed slice,
   so the rebased replace-around step is the same plain replace step as before, shifted.
@@ -10,6 +10,7 @@ import Proofs.UndoAround
 import Proofs.MarkMerge
 import Proofs.MergeOpen
 import PM.CommuteGuard
+import Proofs.ContentBetweenToks
 namespace PM
 
 /-- **the gap is found again**: a closed slice of `K` whose tokens appear in `K'` at `p'`, between
@@ -123,6 +124,36 @@ theorem around_applies_of_parts (S : Schema) (doc doc' : Node) (f t gf gt : Nat)
   | true =>
     obtain ⟨c1, c2⟩ := hst rfl
     simp [Schema.apply, c1, c2, hslice, ho1, ho2, hinst, hfr]
+
+/-- a replace-around step that carries the structure flag and applies has passed its two checks -/
+theorem apply_replaceAround_struct (S : Schema) (doc doc' : Node) (f t gf gt : Nat) (sl : Slice) (ins : Nat)
+    (h : S.apply (.replaceAround f t gf gt sl ins true) doc = .ok doc') :
+    contentBetween doc f gf = some false ∧ contentBetween doc gt t = some false := by
+  cases h1 : contentBetween doc f gf with
+  | none => simp [Schema.apply, h1] at h
+  | some b =>
+    cases b with
+    | true => simp [Schema.apply, h1] at h
+    | false =>
+      cases h2 : contentBetween doc gt t with
+      | none => simp [Schema.apply, h1, h2] at h
+      | some b2 =>
+        cases b2 with
+        | true => simp [Schema.apply, h1, h2] at h
+        | false => exact ⟨rfl, rfl⟩
+
+/-- the structure checks of a replace-around step pass again wherever the two ranges show the same tokens -/
+theorem struct_checks_again (d d' : Node) (f t gf gt f' t' gf' gt' : Nat) (hn : fnorm d.kids = true)
+    (hn' : fnorm d'.kids = true) (hg : f ≤ gf ∧ gf ≤ gt ∧ gt ≤ t) (ht : t ≤ fsize d.kids)
+    (ht' : t' ≤ fsize d'.kids) (e1 : gf' = f' + (gf - f)) (e2 : t' = gt' + (t - gt)) (e3 : gf' ≤ gt')
+    (w1 : ((ftoks d'.kids).drop f').take (gf - f) = ((ftoks d.kids).drop f).take (gf - f))
+    (w2 : ((ftoks d'.kids).drop gt').take (t - gt) = ((ftoks d.kids).drop gt).take (t - gt))
+    (c : contentBetween d f gf = some false ∧ contentBetween d gt t = some false) :
+    contentBetween d' f' gf' = some false ∧ contentBetween d' gt' t' = some false := by
+  subst e1 e2
+  constructor
+  · rw [contentBetween_congr d d' f gf f' hn hn' hg.1 (by omega) (by omega) w1]; exact c.1
+  · rw [contentBetween_congr d d' gt t gt' hn hn' hg.2.2 ht ht' w2]; exact c.2
 
 /-- the guard reads the two slices' open-start depths only -/
 theorem commuteGuard_openStart (kids : List Node) (f1 t1 f2 t2 : Nat) (s1 s2 s1' s2' : Slice)
